@@ -1042,7 +1042,7 @@ class World:
             if norm(sreq) != norm(c.requires) or norm(sens) != norm(c.ensures):
                 raise Inconclusive(f'{c.origin}: contract of {cname} differs from the one assumed in shim/{sfile}.rs\n  shim: {norm(sreq)} | {norm(sens)}\n  here: {norm(c.requires)} | {norm(c.ensures)}')
             self.shim_discharged = getattr(self, 'shim_discharged', [])
-            if not reach:
+            if not reach and not stub:
                 self.shim_discharged.append({'shim': shim_ref, 'function': f'{modpath}::{cname}', 'source': m.get('registry', m.get('file'))})
         if stub and vin:
             # callee verified in another world under the same contract text
@@ -1055,7 +1055,7 @@ class World:
         elif stub:
             body_sha = sha(re.sub(rb'\s+', b' ', src[it['span'][0]:it['span'][1]]))[:16]
             pin = next((o.split('=')[1] for o in c.opts if o.startswith('pin=')), None)
-            self.stubs.append({'mod': modpath, 'name': cname, 'file': m['file'], 'sha': body_sha, 'pin': pin, 'contract': os.path.relpath(c.origin, VERIF)})
+            self.stubs.append({'mod': modpath, 'name': cname, 'file': m.get('registry', m['file']), 'sha': body_sha, 'pin': pin, 'contract': os.path.relpath(c.origin, VERIF)})
             if pin is None:
                 raise Inconclusive(f'{c.origin}: stub {cname} has no pin=<sha> option (current body: pin={body_sha})')
             if pin != body_sha:
